@@ -15,6 +15,8 @@ method or a budget shared between requests shows).
 
 The executed switch list is recorded; replay and shrinking use the explicit plan.
 """
+import os
+
 from .core import new_result, Log, digest, HarnessError, REPO
 from .sched import Sched, gen_plan, simpler_plans
 from . import bodyreq
@@ -24,17 +26,21 @@ PREFIXES = (REPO.rstrip('/') + '/ombott/',)
 
 def maybe_wrap(rng, case, share, est_steps=900):
     """With probability `share`, turn a freshly generated case into a twin case."""
+    if os.environ.get('VERIF_TWIN_SHARE'):
+        share = float(os.environ['VERIF_TWIN_SHARE'])      # self-tests force all (1.0) or no (0.0) twins
     if rng.random() >= share:
         return case
     n = 2 if rng.random() < 0.8 else 3
     return {'twin': case, 'n': n, 'plan': gen_plan(rng, est_steps * n, n)}
 
 
-def run(inner_run, case, *, shared_bodyreq=True, before=None, after=None):
+def run(inner_run, case, *, shared_bodyreq=True, before=None, after=None, step_cap=6_000_000, cap_violation=None):
+    """cap_violation: violation class to report when the run exceeds step_cap (a request that never
+    returns); None = exceeding the cap is a harness error (no legitimate run of the module comes near it)."""
     inner = case['twin']
     n = case.get('n', 2)
     results = [None] * n
-    s = Sched(n, case['plan'], prefixes=PREFIXES, max_steps=2_000_000)
+    s = Sched(n, case['plan'], prefixes=PREFIXES, max_steps=step_cap)
     inflight = set()
     overlap = [0]
 
@@ -61,6 +67,21 @@ def run(inner_run, case, *, shared_bodyreq=True, before=None, after=None):
             bodyreq.SHARED.update(on=False, app=None, cfg=None, n=0)
         if after:
             after(ctx)
+    if s.capped:
+        if cap_violation is None:
+            raise HarnessError(f'twin run exceeded its step cap of {step_cap} traced steps')
+        res = new_result()
+        res['viol'].append({'cls': cap_violation + '@twin',
+                            'msg': f'{n} concurrent identical requests were not all answered within {step_cap} traced '
+                                   f'steps (an ordinary run takes a few thousand): endless loop', 'detail': {}})
+        res['nontrivial'] = True
+        res['fired']['step_cap'] += 1
+        res['steps'] = s.step
+        res['digest'] = digest(['step-cap', step_cap])
+        exp = dict(case)
+        exp['plan'] = s.explicit_plan()
+        res['explicit'] = exp
+        return res
     for i in range(n):
         if s.errors[i] is not None:
             e = s.errors[i]
@@ -111,3 +132,41 @@ def shrink_candidates(case, inner_candidates):
         c = dict(case)
         c['twin'] = ic
         yield c
+
+
+def warm(gen_inner, run_inner, n=60):
+    """Warm regime for twin-enabled modules (their setup_worker): lazily initialised process-wide state of
+    ombott (error page template, filter cache, ...) must be in its steady state before the first scheduled run,
+    or the number of traced steps - hence the meaning of a recorded switch list - would depend on what the
+    process happened to run before.  Runs a fixed set of the module's own cases unscheduled, plus one request
+    of each framework-generated error kind."""
+    import random
+    import io
+    import ombott
+    from .wsgi import make_environ, call_app
+    rng = random.Random(987654321)
+    import signal
+    import threading
+    from . import core
+    guard = threading.current_thread() is threading.main_thread()
+    for _ in range(n):
+        c = gen_inner(rng, 'quick')
+        if guard:
+            old = signal.signal(signal.SIGALRM, core._on_alarm)
+            signal.setitimer(signal.ITIMER_REAL, 3.0)
+        try:
+            run_inner(c)
+        except core.RunTimeout:
+            pass        # a warm-up request that never returns: the seeded runs will meet and report it
+        finally:
+            if guard:
+                signal.setitimer(signal.ITIMER_REAL, 0)
+                signal.signal(signal.SIGALRM, old)
+    app = ombott.Ombott({'max_body_size': 10})
+    app.route('/w/<k:int>', method=['GET', 'POST'], callback=lambda k: app.request.body.read() and 'x')
+    for env in (make_environ('GET', '/nope'), make_environ('PUT', '/w/1'),
+                make_environ('GET', '/nope', headers={'Accept': 'application/json'}),
+                make_environ('POST', '/w/1', stream=io.BytesIO(b'x' * 50), content_length=50),
+                make_environ('POST', '/w/1', stream=io.BytesIO(b'zz\r\n'), chunked=True),
+                make_environ('GET', '/w/\xff')):
+        call_app(app, env)
